@@ -241,6 +241,10 @@ func (s *nhRegularSM) SaveSnapshot(w io.Writer, fc sm.ISnapshotFileCollection, d
 func (s *nhRegularSM) RecoverFromSnapshot(r io.Reader, fs []sm.SnapshotFile, done <-chan struct{}) error {
 	s.enter("RecoverFromSnapshot", nil)
 	s.jitter(1000)
+	if s.c.slowUs > 0 {
+		// a slow recovery: a query that is let in while the state is being replaced would show up
+		time.Sleep(time.Duration(s.c.slowUs/2) * time.Microsecond)
+	}
 	idx, err := s.restore(r)
 	s.exit("RecoverFromSnapshot", nhEv{"applied": idx})
 	return err
